@@ -19,7 +19,10 @@ RULE = ("Hypothesis draws a square operator (real non-symmetric with conjugate p
         "spectrum of M as a multiset (no spurious values); batched == per column. Non-trivial: m < n with non-normal A, "
         "m > n, breakdown, complex, batched. The operator object is Dense, or (2 in 7) Identity / Transpose(Identity) / "
         "Product(I,I) / Kronecker(I,I) / ScalarMul / Diagonal / Sum(I, Dense) / Product(I, Dense) / Permutation; one case in "
-        "six uses tol = 0.")
+        "six uses tol = 0."
+        " Further: Hermitian operators declared SelfAdjoint / PSD with 12..30 rows, pbar=True, entries ~1e-8 in single"
+        " precision with tol 1e-12; the number of well-defined steps is computed with cola's own stopping rules"
+        " (relative to the first sub-diagonal entry, 1e4 eps of |A q|, absolute clip).")
 ASSUMPTIONS = [
     "'m+1 orthonormal columns' is read as: the first min(m'+1, g) columns are orthonormal - no implementation can extend an exhausted Krylov space canonically",
     "tolerances relative to max(1e-10, 10 tol) * max(1,|M|) because cola clips normalisations at tol/2",
@@ -300,7 +303,7 @@ def check(case, out):
         for j, vv in enumerate(vs):
             Qj, Hj, _ = arnoldi(A, vv.copy(), max_iters=m, tol=tol)
             qd, hd = dense(Qj), dense(Hj)
-            h = min(8, min(m, n))
+            h = min(8, min(m, n), max(min(grades) - 1, 1))  # (the vector at the edge of the Krylov space is the least determined)
             bt = max(1e-8, 1e4 * float(np.finfo(qd.dtype).eps))
             # a strongly shifted operator c I + N determines its Arnoldi vectors only to ~eps c / |N| per step
             bt *= max(1.0, 10.0 ** (case.get("shift_exp", 0) - 4))
